@@ -124,3 +124,16 @@ TEXT["C02"] = dict(
                "outlives its storage or is destroyed twice; nothing alive after destruction).",
     level_note="trusts the walker and ledger code in /verif/lib and harness; TLX_BTREE_DEBUG assertions are "
                "enabled as additional internal monitors")
+TEXT["C16"] = dict(
+    engine="ledger+alloc",
+    design_ref="DESIGN.md section 4, C16",
+    technique="runtime lock-step model (std::deque) + element-lifetime ledger + arena allocator after every op, under ASan+UBSan",
+    level_text="Random histories over two RingBuffers (capacities 0..9 and 15..17, both cursors wrapping) "
+               "with heap-owning ledger-registered elements: after every operation contents, front/back/"
+               "index/size/empty equal a std::deque model and the set of live element objects equals the set "
+               "of stored elements (an element destroyed while stored, stored but never constructed, or "
+               "left alive after removal is reported at the operation that caused it). SimpleVector in its "
+               "default mode gets the same ledger check across resize/move/swap/destroy; the NoInit modes "
+               "are exercised with a trivially destructible type only, as documented.",
+    level_note="trusts std::deque and the ledger; preconditions (capacity respected, pop on non-empty) are "
+               "generator invariants; a moved-from buffer is only destroyed, assigned to or re-allocated")
